@@ -64,10 +64,10 @@ MUTANTS = [
      "`^` is an ordinary call whose result keeps flowing / falls through like any value",
      "  LET r == Call(f, arg, cx) IN IF r.st = \"ok\" THEN R(\"ret\", r.v, env) ELSE [r EXCEPT !.env = env]",
      "  LET r == Call(f, arg, cx) IN [r EXCEPT !.env = env]"),
-    ("closure_does_not_capture",
-     "a function body is evaluated in an empty scope instead of the scope of its literal",
-     "          ELSE LET r == EvalBranches(f.body[1].branches, 1, a, f.env, c2)",
-     "          ELSE LET r == EvalBranches(f.body[1].branches, 1, a, EmptyEnv, c2)"),
+    ("dynamic_scoping",
+     "a function body sees the caller's current bindings instead of the scope captured by its literal",
+     "CallFrom(f, arg, env, cx) == [Call(f, arg, cx) EXCEPT !.env = env]",
+     "CallFrom(f, arg, env, cx) == [Call([f EXCEPT !.env = Merge(f.env, env)], arg, cx) EXCEPT !.env = env]"),
     ("partial_pattern_requires_all_fields",
      "a partial pattern also requires the value to have no other fields",
      "         IF /\\ IsTup(v) /\\ (p.name = \"\" \\/ p.name = TName(v))\n"
